@@ -347,6 +347,48 @@ func SchemaMutations() []SchemaMutation {
 			}
 			return fo.Name, true
 		}},
+		{"interface-field-object-not-implementing", func(r *rand.Rand, s *model.Schema) (string, bool) {
+			// an interface field typed by an interface J, implemented with an object that does not implement J
+			for _, o := range s.Types {
+				if o.Kind != model.Object {
+					continue
+				}
+				for _, in := range o.Interfaces {
+					it := s.Type(in)
+					if it == nil {
+						continue
+					}
+					for _, fi := range it.Fields {
+						if fi.Type.List || fi.Type.NonNull {
+							continue
+						}
+						if k, known := s.KindOf(fi.Type.Name); !known || (k != model.Interface && k != model.Union) {
+							continue
+						}
+						fo := o.Field(fi.Name)
+						if fo == nil {
+							continue
+						}
+						for _, cand := range s.Types {
+							if cand.Kind == model.Object && !s.Implements(cand.Name, fi.Type.Name) {
+								fo.Type = model.Named(cand.Name)
+								return fo.Name, true
+							}
+						}
+					}
+				}
+			}
+			return "", false
+		}},
+		{"directive-null-for-nonnull-arg", func(r *rand.Rand, s *model.Schema) (string, bool) {
+			s.Dirs = append(s.Dirs, &model.DirDef{Name: "needArgZz", On: []string{"OBJECT", "SCALAR", "ENUM"}, Args: []*model.ArgDef{{Name: "level", Type: model.NonNullOf(model.Named("Int"))}}})
+			t := pickType(r, s, model.Object, model.Scalar, model.Enum)
+			if t == nil {
+				return "", false
+			}
+			t.Dirs = append(t.Dirs, model.DirUse{Name: "needArgZz", Args: []model.Arg{{Name: "level", Value: nil}}})
+			return "Int", true
+		}},
 		{"interface-arg-missing", func(r *rand.Rand, s *model.Schema) (string, bool) {
 			o, _, fo, fi := implementer(r, s, true)
 			if o == nil {
